@@ -184,6 +184,23 @@ class SaveHarness:
         self.doomed.discard(sid)
         self.settle()
 
+    def engine_method(self, v: int, content: int):
+        """EM.MethodMsg: the engine sends the method it holds (its catch-up after a reconnect)."""
+        import openpectus.protocol.engine_messages as EM
+        import openpectus.protocol.models as PM
+        m = PM.Method(version=v, lines=[PM.MethodLine(id="l1", content=f"content {content}"),
+                                        PM.MethodLine(id="l2", content="")])
+        self.loop.run_until_complete(self.handlers.handle_MethodMsg(EM.MethodMsg(engine_id=self.eid, method=m)))
+        self.settle()
+
+    def read(self) -> int | None:
+        """A client reads the method through the route; the version number it is handed."""
+        from openpectus.aggregator.routers import process_unit
+        try:
+            return process_unit.get_method(user_roles=set(), unit_id=self.eid, agg=self.agg).version
+        except Exception:
+            return None
+
     def enabled(self, ev: list) -> bool:
         if ev[0] == "start":
             return ev[1] not in {i for (i, _) in self.started}
@@ -194,6 +211,10 @@ class SaveHarness:
             return self.registered()
         if ev[0] == "register":
             return not self.registered()
+        if ev[0] == "emethod":
+            return self.registered()
+        if ev[0] == "read":
+            return True
         return False
 
     def apply(self, ev: list) -> None:
@@ -203,6 +224,10 @@ class SaveHarness:
             self.reply(ev[1], ev[2])
         elif ev[0] == "disconnect":
             self.disconnect()
+        elif ev[0] == "emethod":
+            self.engine_method(ev[1], ev[2])
+        elif ev[0] == "read":
+            self.read()
         else:
             self.register()
 
@@ -233,10 +258,10 @@ class SaveHarness:
                 f"acc={sl(acc)} eng={nl([c[1] for c in self.calls])} res={sl([f'{i}:{o}' for (i, o) in self.results])}")
 
 
-def probe() -> tuple[bool, bool, bool]:
+def probe() -> tuple[bool, bool, bool, bool]:
     """Measure which system the code is: (a second save entering during the first one's round trip is held back,
     the method version after a disconnect + re-registration is 0 again, a save on a stale version entering during a
-    round trip is refused at once instead of waiting for the lock)."""
+    round trip is refused at once instead of waiting for the lock, the engine's MethodMsg changes the version)."""
     h = SaveHarness(3)
     try:
         h.start(0, 3, 1)
@@ -254,9 +279,12 @@ def probe() -> tuple[bool, bool, bool]:
         h.disconnect()
         h.register()
         reset = h.version() == 0
+        before = h.version()
+        h.engine_method(1, 1)                 # the engine's catch-up message with an old version number
+        msgver = h.version() != before
     finally:
         h.close()
-    return locked, reset, precheck
+    return locked, reset, precheck, msgver
 
 
 def run_case(case: dict) -> tuple[list[str], list[dict]]:
@@ -270,23 +298,28 @@ def run_case(case: dict) -> tuple[list[str], list[dict]]:
             if not h.enabled(ev):          # e.g. answer to a request that is still blocked
                 out.append("bad-op")
                 continue
-            h.apply(ev)
+            handed = h.read() if ev[0] == "read" else None
+            if ev[0] != "read":
+                h.apply(ev)
             out.append(h.observe())
-            facts.append({"ev": ev, "v_before": v_before, "v_after": h.version(), "new": h.results[n_before:]})
+            facts.append({"ev": ev, "v_before": v_before, "v_after": h.version(), "new": h.results[n_before:],
+                          "handed": handed})
         return out, facts
     finally:
         h.close()
 
 
-def case_lines(case: dict, cfg: tuple[bool, bool, bool], mutant: bool = False) -> list[str]:
-    ls = [f"{'initm' if mutant else 'init'}\t{case['v0']}\t{int(cfg[0])}\t{int(cfg[1])}\t{int(cfg[2])}"]
+def case_lines(case: dict, cfg: tuple[bool, bool, bool, bool], mutant: bool = False) -> list[str]:
+    ls = [f"{'initm' if mutant else 'init'}\t{case['v0']}\t{int(cfg[0])}\t{int(cfg[1])}\t{int(cfg[2])}\t{int(cfg[3])}"]
     for ev in case["events"]:
         if ev[0] == "start":
             ls.append(f"start\t{ev[1]}\t{ev[2]}\t{ev[3] if len(ev) > 3 else 0}")
         elif ev[0] == "reply":
             ls.append(f"reply\t{ev[1]}\t{1 if ev[2] == 'ok' else 0}")
+        elif ev[0] == "emethod":
+            ls.append(f"emethod\t{ev[1]}\t{ev[2]}")
         else:
-            ls.append(ev[0])
+            ls.append(ev[0])           # disconnect / register / read
     return ls
 
 
@@ -334,6 +367,56 @@ def enumerate_schedules(v0: int, bases: list[int], rng, outcomes=("ok", "err"), 
     return leaves
 
 
+def catchup_schedules(v0: int = 0) -> list[dict]:
+    """The engine reconnects and then sends the method it holds (with the version *it* holds, which does not count the
+    re-registration); two clients read the method and save what they read.  All 140 interleavings of
+    [engine's MethodMsg] with [read C, save C, answer C] and [read D, save D, answer D] after
+    `save 0 accepted, disconnect, register`; a save is based on the version number its client was handed."""
+    seqs = {"E": ["emethod"], "C": ["read", "start", "reply"], "D": ["read", "start", "reply"]}
+    orders = set()
+
+    def gen(prefix, left):
+        if not any(left.values()):
+            orders.add(tuple(prefix))
+            return
+        for k in left:
+            if left[k]:
+                gen(prefix + [(k, left[k][0])], {**left, k: left[k][1:]})
+    gen([], seqs)
+    out = []
+    for order in sorted(orders):
+        h = SaveHarness(v0)
+        events: list[list] = []
+        try:
+            def do(ev):
+                if h.enabled(ev):
+                    h.apply(ev)
+                    events.append(ev)
+            do(["start", 0, v0, 1])
+            do(["reply", 0, "ok"])
+            do(["disconnect"])
+            do(["register"])
+            handed: dict[str, int | None] = {}
+            ids = {"C": 1, "D": 2}
+            for (who, what) in order:
+                if what == "emethod":
+                    do(["emethod", v0 + 1, 1])          # what the engine holds: the method of save 0
+                elif what == "read":
+                    handed[who] = h.read()
+                    events.append(["read", ids[who]])
+                elif what == "start":
+                    if handed.get(who) is not None:
+                        do(["start", ids[who], handed[who], ids[who] + 1, ids[who]])
+                else:
+                    do(["reply", ids[who], "ok"])
+            while h.pending():                             # answers that were not deliverable where the order had them
+                do(["reply", h.pending()[0], "ok"])
+        finally:
+            h.close()
+        out.append({"v0": v0, "events": events})
+    return out
+
+
 def random_schedule(rng, n: int, v0: int) -> dict:
     """Longer random schedule; a request is mostly based on the version current when it enters; the engine drops and
     comes back now and then."""
@@ -354,6 +437,8 @@ def random_schedule(rng, n: int, v0: int) -> dict:
                 choices += ["disconnect"]
             if not reg:
                 choices += ["register"] * 3
+            if reg and events and events[-1][0] in ("register", "emethod") and len(events) < 40:
+                choices += ["emethod"] * 2
             if not choices:
                 break
             c = rng.choice(choices)
@@ -372,6 +457,8 @@ def random_schedule(rng, n: int, v0: int) -> dict:
                 i = rng.choice(pend)
                 ok = rng.random() < 0.75 and i not in h.doomed and reg
                 ev = ["reply", i, "ok" if ok else rng.choice(ERR_KINDS)]
+            elif c == "emethod":
+                ev = ["emethod", max(0, last_version - rng.randrange(0, 3)), rng.randrange(0, 4)]
             else:
                 ev = [c]
             h.apply(ev)
@@ -390,7 +477,23 @@ def oracle(case: dict, facts: list[dict]) -> list[Failure]:
     fails: list[Failure] = []
     base = {ev[1]: ev[2] for ev in case["events"] if ev[0] == "start"}
     accepted: list[tuple[int, int]] = []  # (id, base)
+    reader_of = {ev[1]: ev[4] for ev in case["events"] if ev[0] == "start" and len(ev) > 4 and ev[4] is not None}
+    incarnation = 0                       # the oracle's own count of "the current version number changed"
+    handed: dict[int, tuple[int | None, int]] = {}      # reader -> (version number it was handed, incarnation then)
     for f in facts:
+        if f["ev"][0] == "read":
+            handed[f["ev"][1]] = (f.get("handed"), incarnation)
+        for (i, o) in f["new"]:
+            # a save made by a client that read the method is acceptable only while the version it was handed is
+            # still the current one — the same number coming round again later is a different version
+            if o.startswith("ok") and i in reader_of and reader_of[i] in handed \
+                    and handed[reader_of[i]][1] != incarnation:
+                fails.append(Failure("save-accepted-although-the-version-it-read-was-superseded", case,
+                                     f"save {i} was based on version {handed[reader_of[i]][0]} as handed to its client; "
+                                     f"the current version changed {incarnation - handed[reader_of[i]][1]} time(s) "
+                                     f"since, yet the save was accepted"))
+        if f["v_after"] != f["v_before"]:
+            incarnation += 1
         v = f["v_before"]
         oks = [(i, o) for (i, o) in f["new"] if o.startswith("ok")]
         for (i, o) in oks:
@@ -416,7 +519,8 @@ def oracle(case: dict, facts: list[dict]) -> list[Failure]:
             across = any(e[0] == "register" for e in case["events"])
             key = "two-saves-on-same-version-both-accepted" + ("-across-reconnect" if across and _separated(case, ids) else "")
             fails.append(Failure(key, case, f"saves {ids} were all based on version {b} and all accepted"))
-    fails.sort(key=lambda x: 0 if x.key.startswith("two-saves-on-same-version-both-accepted") else 1)
+    fails.sort(key=lambda x: 0 if x.key.startswith("two-saves-on-same-version-both-accepted") else
+               1 if x.key.startswith("save-accepted-although") else 2)
     return fails
 
 
@@ -452,7 +556,8 @@ def run(ctx: Check) -> int:
     cfg = probe()
     ctx.extra["measured_system"] = {"second_save_waits_for_the_first_round_trip": cfg[0],
                                     "version_reset_to_0_on_reregistration": cfg[1],
-                                    "stale_save_refused_in_front_of_the_lock": cfg[2]}
+                                    "stale_save_refused_in_front_of_the_lock": cfg[2],
+                                    "engine_method_message_changes_the_version": cfg[3]}
     rng = ctx.rng
 
     cases: list[dict] = [WITNESS, RECONNECT_WITNESS, SAME_CONTENT_WITNESS] + [c for c in load_corpus("C31") if "events" in c]
@@ -479,6 +584,9 @@ def run(ctx: Check) -> int:
     for bases in rec_bases:
         cases += enumerate_schedules(0, list(bases), rng, reconnects=1)
     n_rec = len(cases) - n_before
+    n_before = len(cases)
+    cases += catchup_schedules(0)             # reconnect, the engine's catch-up MethodMsg, two clients read and save
+    n_catchup = len(cases) - n_before
     if ctx.tier == "thorough":                                              # 4 saves, engine always answers ok
         for bases in [(v0, v0, v0, v0), (v0, v0, v0 + 1, v0 + 1), (v0, v0 + 1, v0, v0 + 2)]:
             cases += enumerate_schedules(v0, list(bases), rng, outcomes=("ok",))
@@ -489,9 +597,12 @@ def run(ctx: Check) -> int:
         cases.append(random_schedule(rng, rng.randrange(2, 7), rng.randrange(0, 5)))
     ctx.extra["schedules"] = {"exhaustive_small_scopes": n_exh, "of_which_with_reconnect": n_rec,
                               "of_which_with_unchanged_or_equal_contents": n_content,
+                              "of_which_reconnect_catchup_with_readers": n_catchup,
                               "random_longer": len(cases) - n_exh}
     ctx.rule = ("schedules = event lists over {start(id, base, content), reply(id, ok|internal error|caller error|exception), "
-                "disconnect, register}; every maximal interleaving of 2 saves (bases in {v-1,v,v+1}^2) and of 3 saves "
+                "disconnect, register, engine MethodMsg(version the engine holds, content), read}; all 140 interleavings "
+                "of the engine's catch-up MethodMsg after a reconnect with two clients that read the method and save "
+                "what they read; every maximal interleaving of 2 saves (bases in {v-1,v,v+1}^2) and of 3 saves "
                 "(quick: bases in {v,v+1}^3 and three stale mixes; thorough: {v-1,v,v+1}^3); every interleaving of 2 saves (bases in {0,1,2}, quick: 5 base vectors) with "
                 "one engine disconnect + re-registration at every point (thorough: also 4 saves and 3 saves with a "
                 "reconnect on selected base vectors with ok answers), enumerated over the events the real handlers have "
@@ -531,6 +642,8 @@ def run(ctx: Check) -> int:
                 ctx.count("reply=" + e[2])
             elif e[0] == "disconnect":
                 ctx.count("disconnect")
+            elif e[0] == "emethod":
+                ctx.count("engine-method-message")
         last = next((ln for ln in reversed(out) if " acc=" in ln), "")
         acc = last.split(" acc=")[1].split(" ")[0] if last else "-"
         ctx.count("accepted=" + str(0 if acc == "-" else acc.count(":")))
